@@ -49,7 +49,7 @@ for sid in ids:
             print(sid, chk, results[chk], flush=True)
     subprocess.run(["git", "-C", "/repo", "checkout", "--", "."], check=True)
     conf = ""
-    cl = "/tmp/seeds%s/%s/confirm.log" % (("2", prop) if sid.endswith("b") else ("3", prop) if sid.endswith("c") else ("", sid))
+    cl = "/tmp/seeds%s/%s/confirm.log" % (("2", prop) if sid.endswith("b") else ("3", prop) if sid.endswith("c") else ("4", prop) if sid.endswith("d") else ("", sid))
     if os.path.exists(cl): conf = open(cl).read().strip().splitlines()[-1]
     elif os.path.exists(os.path.join(d, "meta.json")): conf = json.load(open(os.path.join(d, "meta.json"))).get("confirmed", {}).get("result", "")
     needs = NEEDS.get(sid) or (open(os.path.join(d, "needs.txt")).read().strip() if os.path.exists(os.path.join(d, "needs.txt")) else "see NOTES.md")
